@@ -121,7 +121,7 @@ fn cmd_selftest() -> i32 {
                 let r = if let Some(seq) = &j.seq {
                     Ok(job::run_seq_job(prop, &j, seq, (0, 1), None, &known, Some(&json!({"selftest": true}))))
                 } else {
-                    run_job(prop, &j, (0, 1), None, None, &known)
+                    run_job(prop, &j, (0, 1), None, None, None, &known)
                 };
                 match r {
                     Ok(r) => sig.push((r.value["executions"].clone(), r.value["trace_digests"].clone(), r.value["root_steps"].clone(), r.violation.map(|v| v["detail"].clone()))),
@@ -222,7 +222,7 @@ fn cmd_trace(args: &[String]) -> i32 {
         return 2;
     };
     let known = KnownFindings { keys: vec![] };
-    match run_job(prop, job, (0, 1), None, Some(devs), &known) {
+    match run_job(prop, job, (0, 1), None, None, Some(devs), &known) {
         Ok(r) => {
             println!("violation: {}", r.violation.map_or("none".to_string(), |v| v["detail"].to_string()));
             0
@@ -266,7 +266,10 @@ fn cmd_run(args: &[String]) -> i32 {
     let started = Instant::now();
     let deadline = budget.map(|b| started + b);
 
-    let jobs = families::jobs(&prop, tier);
+    let mut jobs = families::jobs(&prop, tier);
+    // cheap, wide jobs first and the deepest bounds last, so that a budget cap (reported in the
+    // evidence) can only cut the deepest explorations, never a whole family (stable sort)
+    jobs.sort_by_key(|j| if j.seq.is_some() || j.bound >= 64 { 0 } else { j.bound });
     let total_jobs = jobs.len();
     RESULTS.with(|r| {
         *r.borrow_mut() = Some((
@@ -287,20 +290,30 @@ fn cmd_run(args: &[String]) -> i32 {
     }));
 
     let mut exit = 0;
+    let mut split_ordinal = 0usize;
     for (idx, job) in jobs.iter().enumerate() {
         if let Some(f) = only_job {
             if job.id != f {
                 continue;
             }
         }
+        // claim regions: region 0 holds one entry per whole (non-split) job, region k >= 1 the
+        // split-depth children of the k-th split job (same numbering in every process)
+        let mut region = None;
         let jpart = if job.split {
+            split_ordinal += 1;
+            region = Some(split_ordinal);
             part
         } else {
-            // spread whole jobs over the processes by a hash of the id (index order correlates
-            // with cost: specs and bounds cycle)
-            let _ = idx;
-            let h = job.id.bytes().fold(0xcbf29ce484222325u64, |h, b| (h ^ b as u64).wrapping_mul(0x100000001b3));
-            if (h >> 7) as usize % part.1 != part.0 {
+            let mine = match if part.1 > 1 { explorer::claims::try_claim(0, idx) } else { None } {
+                Some(won) => won,
+                None => {
+                    // static fallback: spread whole jobs over the processes by a hash of the id
+                    let h = job.id.bytes().fold(0xcbf29ce484222325u64, |h, b| (h ^ b as u64).wrapping_mul(0x100000001b3));
+                    (h >> 7) as usize % part.1 == part.0
+                }
+            };
+            if !mine {
                 continue;
             }
             (0, 1)
@@ -315,7 +328,7 @@ fn cmd_run(args: &[String]) -> i32 {
         }
         // the violation (if any) must be visible to the abandon handler before a hang is reported:
         // run_job reports through the same RESULTS cell via the closure below
-        let report = run_job_recording(&prop, job, jpart, deadline, None, &known);
+        let report = run_job_recording(&prop, job, jpart, region, deadline, None, &known);
         match report {
             Err(e) => {
                 eprintln!("MACHINERY-ERROR: job {}: {e}", job.id);
@@ -351,11 +364,12 @@ fn run_job_recording(
     prop: &str,
     job: &job::Job,
     part: (usize, usize),
+    region: Option<usize>,
     deadline: Option<Instant>,
     only: Option<Vec<explorer::Dev>>,
     known: &KnownFindings,
 ) -> Result<bool, String> {
-    let report = run_job(prop, job, part, deadline, only, known)?;
+    let report = run_job(prop, job, part, region, deadline, only, known)?;
     let has_violation = report.violation.is_some();
     RESULTS.with(|r| {
         if let Some((_, v)) = r.borrow_mut().as_mut() {
@@ -414,7 +428,7 @@ fn cmd_replay(args: &[String]) -> i32 {
     let result = if let Some(seq) = &job.seq {
         Ok(job::run_seq_job(&prop, job, seq, (0, 1), None, &known, Some(&v["seq_witness"])))
     } else {
-        run_job(&prop, job, (0, 1), None, Some(devs), &known)
+        run_job(&prop, job, (0, 1), None, None, Some(devs), &known)
     };
     match result {
         Err(e) => {
